@@ -14,11 +14,11 @@ TEXT = {
     "C03": ('KIND tables + dispatch/operand-order/short-circuit structure', 'Decides operator dispatch, operand order, short-circuit control dependence, fold direction, that every binary expression goes through the fold, one-step inc/dec, the kind-level result tables (36 cells per binary operation) with term anchors and that no float-to-integer cast becomes text. Numeric results and string contents are not decided.'),
     "C04": ('control-flow state machine shape (FIELDS, KIND, ERRFLOW)', 'Decides who writes the control-flow state, that it is inspected between two executed statements, the 4-row loop table, loop re-evaluation, one-branch if, statement dispatch completeness, the truthiness terms that decide conditions and that no runtime error is swallowed. Does not decide the trace of a concrete program.'),
     "C05": ("PAIR + FIELDS + event order", "Decides scope push/pop pairing per activation on every non-error path, innermost-first lookup, pronoun-referent writers, the call protocol order, the return-value writers (the expression is evaluated on every path), that every opened scope is a fresh table and who may obtain a mutable variable cell (the write visitor only). Dynamic shadowing on concrete programs is not decided."),
-    "C06": ('TYPES + unsafe census + make_mut discipline + KIND tables + EVAL-ONCE', 'Independence of copies is decided by construction (no interior mutability or raw pointer in Val, every mutable access to shared array storage through Rc::make_mut, no unsafe write path); kind-level error tables, queue ends and the decay law are decided on the extracted tables; every child expression is evaluated at most once per statement (reviewed re-evaluations excepted), nested subscripts are applied innermost-first and the key is the evaluated subscript itself. Exact extension length and dictionary contents are not decided.'),
-    "C07": ("FIELDS protocol + KIND tables + CENSUS", "Decides the into-vs-in-place protocol, operator->transformation dispatch, wrong-kind => error tables that no panicking callee precondition is left open and that no integer `as` cast can wrap around. The exact pieces of a split, radix arithmetic and rounding of halves are not decided."),
+    "C06": ('TYPES + unsafe census + make_mut discipline + KIND tables + EVAL-ONCE', 'Independence of copies is decided by construction (no interior mutability or raw pointer in Val, every mutable access to shared array storage through Rc::make_mut, no unsafe write path); kind-level error tables, queue ends and the decay law are decided on the extracted tables; every child expression is evaluated at most once per statement (reviewed re-evaluations excepted), nested subscripts are applied innermost-first, the key is the evaluated subscript itself, and a key of kind k addresses the slot of kind k for reads and writes alike (KIND table). Exact extension length and dictionary contents are not decided.'),
+    "C07": ("FIELDS protocol + KIND tables + CENSUS", "Decides the into-vs-in-place protocol, operator->transformation dispatch, wrong-kind => error tables that no panicking callee precondition is left open, that no integer `as` cast can wrap around, where floats may be converted to integers at all, and that the radix parse is i64::from_str_radix of the string itself. The exact pieces of a split, radix arithmetic and rounding of halves are not decided."),
     "C08": ('FIELDS + ERRFLOW + must-pass-through + type-level pass-through + KIND fault table', "Decides: exactly one complete write per say and one read per listen before the destination branch, on every path; I/O errors converted and propagated; a failed stream operation <=> Err for every kind of fault and buffer state (KIND table of Environment::output/input); nobody else touches the streams; no layer is put between the caller's streams and the interpreter. Byte-exact content is not decided."),
     "C09": ("CENSUS + BORROW", "Absence by enumeration of panic/UB-capable constructs reachable from execution and error rendering in both profiles; RefCell borrow overlap; unimplemented visitor paths unreachable. Stack depth and memory exhaustion are outside the property's budget and not decided."),
-    "C10": ("ORDER taint + TYPES", "Every source of nondeterminism (hash iteration, addresses, time, randomness, threads, environment) is enumerated over the whole library and must reach an order-insensitive consumer; lint-pass state does not survive from one run to the next. Assumes std and the dependencies are deterministic."),
+    "C10": ("ORDER taint + TYPES", "Every source of nondeterminism (hash iteration, addresses, time, randomness, threads, environment) is enumerated over the whole library and must reach an order-insensitive consumer; lint-pass state does not survive from one run to the next; the I/O shape does not depend on how the streams deliver bytes; equality and hash of dictionary keys agree. Assumes std and the dependencies are deterministic."),
     "C12": ('UNITS + freshness of line state + ORDERINGS', 'Decides that position arithmetic is dimensionally consistent (byte offsets, lengths, lines, columns), that the line state is never read stale and who writes it, that a merged token keeps its line information, that the buffer is the text the caller passed and that the spelling of a token is the slice its range covers, and -- exhaustively over the order configurations of lines and columns -- that range construction and concatenation normalise lexicographically. Does not decide that a reported column equals the true column of a concrete text.'),
     "C13": ('PROGRESS + ERRFLOW + TABLE', "Decides end-of-statement enforcement on every path, that parse errors are never swallowed, that Ok(Program) is only returned at end of input, that 'no statement here' token kinds are all handled, that a token is never taken from the stream before it was accepted when an error located at the current token can follow, which words may be left out, and that the printed line of a token location is the start line of its range. That the lexer's line for a concrete text is right is C12's business."),
     "C14": ('KIND truth tables and symmetry', 'Decides the mirror laws of the derived comparison operators and of and/or/nor as exhaustive finite truth tables, symmetry of the coercion table over all 36 kind pairs, that equality and ordering share one coercion, that `not` is !is_truthy of the operand itself, that a compound assignment reaches its write only through the binary operator fold and that `let x be <op> e` is always parsed as the compound form. NaN/-0 instances and the build/knock round trip are not decided.'),
